@@ -234,6 +234,15 @@ def gen_and_check(ctx, work, k):
         ms = ms0 if rng.random() < 0.7 else rng.choice([9, 12, 14, 16])
         path = vcfgen.materialise(spec, pathlib.Path(work) / f"g{k}", kind, block_size=block, min_shift=ms)
         check_file(ctx, spec, path, None, f"htslib {kind} min_shift={ms} block={block}", block)
+        if kind == "vcf.gz+tbi" and k % 3 == 0:
+            # the index kept somewhere else and passed explicitly (no index beside the data file)
+            sub = pathlib.Path(work) / f"e{k}"
+            sub.mkdir(exist_ok=True)
+            lone = sub / "lone.vcf.gz"
+            shutil.copy(path, lone)
+            check_file(ctx, spec, lone, pathlib.Path(str(path) + ".tbi"), f"htslib {kind} block={block}, index passed explicitly from another directory", block)
+            ctx.count("explicit_index_elsewhere")
+            shutil.rmtree(sub, ignore_errors=True)
     # synthesised CSI over the same vcf.gz (own BGZF layout known)
     if ctx.driver_ok:
         path = pathlib.Path(work) / f"s{k}.vcf.gz"
